@@ -100,6 +100,8 @@ def _noise(proto, noise, when):
     if not noise or noise == "none":
         return
     shape, at = noise.split("@")
+    if shape == "twin":
+        return          # handled by the GETINFO vector itself
     if shape == "cancel":
         if when == "before":
             d0 = proto.get_info("version")
@@ -121,9 +123,16 @@ def getinfo_vector(kvs, seg="whole", rng=None, noise="none"):
     run = cc.Run(wrap=False)
     p = run.proto
     fired = []
-    _noise(p, noise, "before")
+    twin = []
+    if noise == "twin@before":
+        # the connection is busy, and an identical request (another caller's) is already waiting in the queue
+        p.queue_command("GETINFO version").addErrback(lambda f: None)
+        p.get_info(*[k for k, _, _ in kvs]).addBoth(twin.append)
+    else:
+        _noise(p, noise, "before")
     p.get_info(*[k for k, _, _ in kvs]).addBoth(fired.append)
-    _noise(p, noise, "during")
+    if noise != "twin@before":
+        _noise(p, noise, "during")
     wire = []
     for key, block, lines in kvs:
         if block:
@@ -135,10 +144,15 @@ def getinfo_vector(kvs, seg="whole", rng=None, noise="none"):
     wire.append("250 OK")
     data = "".join(w + "\r\n" for w in wire).encode("latin-1")
     try:
+        if noise == "twin@before":
+            p.dataReceived(CANCELLED_REPLY)       # the busy command's answer
+            _deliver(p, data, seg, rng)           # the twin's answer, then ours
         _deliver(p, data, seg, rng)
     except Exception:
         fired.append(failure.Failure())
     res = fired[0] if fired else None
+    if noise == "twin@before" and (not twin or isinstance(twin[0], failure.Failure) or twin[0] != res):
+        res = failure.Failure(RuntimeError("the identical request queued before this one got %r" % (twin[:1],)))
     return dict(p="C13", cmd="GETINFO", kvs=[dict(key=b(k), block=bl, lines=[b(l) for l in ls]) for k, bl, ls in kvs],
                 wire=[b(w) for w in wire], res=_result(res, [k for k, _, _ in kvs]), seg=seg, noise=noise,
                 key=[], unset=False, vals=[])
